@@ -101,9 +101,19 @@ def run(ctx):
                 # a persistent fault strictly before the last read call of a clean run must surface, unless the
                 # remaining reads only probe for end of data
                 ctx.count("persistent_ok_same_value")
+                # >>> a_c20 (wave 4): "persistent failures always end in an error": read call idx of the fault-free run
+                # is issued in this run too (the runs are identical up to it) and fails, and so does every later one
+                fail("persistent-swallowed", "persistent fault from read call %d of %d on: the call still returns Ok (%s)" % (idx, ncalls, o[:100]), [fcases[k]], [o], "ERR:io")
+                # <<< a_c20
         elif o != "ERR:io" and o != ref:
             key = "G-bin-stream-discarded-read" if fam == "bin" else "fault-other-error"
             fail(key, "fault at read call %d (%s) surfaces as %s instead of an I/O error (fault-free: %s)" % (idx, kindf, o, ref[:100]), [fcases[k]], [o], "ERR:io")
+
+    # >>> a_c20 (wave 4): the extracted walk model of the binary reader deserializer (BinDeReader.deser_reader, the
+    # function Props/C20_dewalk.v is stated over) run on the SAME fault cases: schedule with Fail events on both sides
+    bde = ["c20.bde" + c[len("de.bin"):] for c in fcases if c.startswith("de.bin\t")]
+    ctx.correspond("bin_de_fault_model", bde, nontrivial=lambda c, i: i == "ERR:io")
+    # <<< a_c20
 
 
 def search(ctx):
